@@ -83,6 +83,11 @@ def _lines(path):
                     continue
                 raise ImgError("strace log: unparsable line: " + raw[:200])
             yield m.groups()
+    # calls still in progress when the process ended: their effect may or may not have happened
+    for pid, text in pending.items():
+        m = re.match(r"^(\w+)\((.*)$", text, re.S)
+        if m:
+            yield pid, m.group(1), m.group(2), "pending", ""
 
 
 def split_args(a):
@@ -138,7 +143,8 @@ def _path(arg, dirarg=None):
 
 
 def parse(logpath, root, ackpath):
-    """-> list of events (dicts) about paths under root, and ACK markers, in log order"""
+    """-> (list of events (dicts) about paths under root and ACK markers, in log order;
+           writes that were still in progress when the process ended)"""
     root = root.rstrip("/")
     evs = []
     off = {}       # fd -> [offset, append?]
@@ -149,13 +155,26 @@ def parse(logpath, root, ackpath):
     def rel(p):
         return p[len(root) + 1:]
 
+    pend = []
     for pid, name, args, ret, rest in _lines(logpath):
         if ret == "?":
+            continue
+        a = split_args(args)
+        if ret == "pending":
+            # only a write can leave bytes behind that the log does not account for
+            if name == "write":
+                fd, p = _fdpath(a[0])
+                if inside(p) and len(a) >= 3 and a[2].strip().isdigit():
+                    st = off.setdefault(fd, [0, False])
+                    pend.append({"e": "write", "p": rel(p), "off": None if st[1] else st[0],
+                                 "data": unhex(a[1])[:int(a[2])]})
+            elif name in ("pwrite64", "writev", "pwritev", "ftruncate", "rename", "renameat", "renameat2",
+                          "unlink", "unlinkat") and root in unhex(args).decode(errors="replace"):
+                raise ImgError(f"{name} on the store still in progress at the end of the strace log")
             continue
         r = int(ret)
         if r < 0:
             continue
-        a = split_args(args)
         if name in ("openat", "open", "creat"):
             if name == "openat":
                 p, flags = _path(a[1], a[0] if not a[0].startswith("AT_FDCWD") else None), a[2]
@@ -234,11 +253,11 @@ def parse(logpath, root, ackpath):
             if inside(p):
                 evs.append({"e": "fsync", "p": rel(p) if p != root else ""})
             continue
-    return evs
+    return evs, pend
 
 
 class Inode:
-    __slots__ = ("data", "size", "ddata", "dsize", "sdata", "ssize", "unsynced", "ver", "ext")
+    __slots__ = ("data", "size", "ddata", "dsize", "sdata", "ssize", "unsynced", "ver", "dver", "wver", "ext")
 
     def __init__(self):
         self.data = bytearray()   # volatile content up to the highest written offset
@@ -248,7 +267,9 @@ class Inode:
         self.sdata = b""          # durable content under the strict contract (explicit fsync only)
         self.ssize = 0
         self.unsynced = []        # (off, bytes, event index) written since the last fsync
-        self.ver = 0              # number of fsyncs (for fingerprints)
+        self.ver = 0              # number of fsyncs / changes of ddata / changes of data: identify
+        self.dver = 0             # a content without hashing it (image descriptors)
+        self.wver = 0
         self.ext = None           # content comes from the final directory (mmap-written CAS file)
 
 
@@ -291,6 +312,7 @@ class Replayer:
             elif isinstance(n, Inode) and ev["trunc"]:
                 n.data = bytearray()
                 n.size = 0
+                n.wver += 1
                 n.unsynced.append((0, None, self.k))
         elif e == "write":
             n = self._file(ev["p"])
@@ -300,17 +322,20 @@ class Replayer:
                 n.data.extend(bytes(o - len(n.data)))
             n.data[o:o + len(d)] = d
             n.size = max(n.size, o + len(d))
+            n.wver += 1
             n.unsynced.append((o, d, self.k))
         elif e == "truncate":
             n = self._file(ev["p"])
             if ev["size"] < len(n.data):
                 del n.data[ev["size"]:]
             n.size = ev["size"]
+            n.wver += 1
         elif e == "fallocate":
             n = self._file(ev["p"])
             if ev["mode"] not in ("0", "0x0"):
                 raise ImgError("fallocate mode " + ev["mode"])
             n.size = max(n.size, ev["off"] + ev["len"])
+            n.wver += 1
         elif e == "rename":
             n = self.ns.pop(ev["p"], None)
             if n is None:
@@ -321,6 +346,7 @@ class Replayer:
             elif isinstance(self.ns.get(ev["q"]), Inode) and not ev["q"].startswith("cacache"):
                 # replace-by-rename: the default contract flushes the new file's data first
                 n.ddata, n.dsize = bytes(n.data), n.size
+                n.dver += 1
             elif ev["q"].startswith("cacache/content-") and self.final is not None:
                 # written through a shared mapping: the bytes are whatever the process stored
                 # before renaming the file into place, i.e. what the final directory holds
@@ -337,6 +363,7 @@ class Replayer:
                 n.dsize = n.ssize = n.size
                 n.unsynced = []
                 n.ver += 1
+                n.dver += 1
             # ordered metadata journal: every earlier name-space operation is durable now
             self.dns = dict(self.ns)
         else:
@@ -401,6 +428,30 @@ class Replayer:
                 m = mode if (mode != "os" or is_journal(p)) else "dur"
                 out[p] = self._content(n, m, cut)
         return out
+
+    def describe(self, nsname, mode, cut):
+        """hashable identity of the image files(nsname, mode, cut) would build, without building it"""
+        ns = self.ns if nsname == "ns" else self.dns
+        d = []
+        for p, n in ns.items():
+            if p.startswith("cacache"):
+                continue
+            if n == "dir":
+                d.append((p, "dir"))
+                continue
+            m = mode if (mode != "os" or is_journal(p)) else "dur"
+            if m == "os" and not n.unsynced:
+                m = "dur"
+            if m == "dur":
+                d.append((p, id(n), "d", n.dver))
+            elif m == "strict":
+                d.append((p, id(n), "s", n.ver))
+            else:
+                c = cut if cut is not None and any(k == cut[0] for (_, _, k) in n.unsynced) else None
+                d.append((p, id(n), "o", n.dver, len(n.unsynced), c))
+        # the CAS subtree is left out: it does not take part in the recovery of the store, and its
+        # presence is not judged for power-loss images
+        return tuple(sorted(d, key=lambda x: x[0]))
 
     @staticmethod
     def fingerprint(files):
